@@ -145,8 +145,9 @@ class Prog:
         self.by_line = {}
         for t in self.toks:
             self.by_line.setdefault(t.line, []).append(t)
-        self.gen_chunks = chunks        # generator-provided: list of (first_line, last_line, permutable) 1-based
-        self.gen_after = after or []    # pairs (i, j) of permutable chunk indices: i must stay before j
+        self.gen_chunks = chunks        # generator-provided: list of (first_line, last_line, group) 1-based;
+                                        # group: None (fixed), "D" (definition), "P" (prototype / forward declaration)
+        self.gen_after = after or {}    # group -> pairs (i, j) of chunk indices in that group: i must stay before j
         self.keep = set(keep)
 
     def join(self, lines):
@@ -404,41 +405,98 @@ def linear_extensions(n, before):
     yield from rec([], set())
 
 
+def _apply_perm(p, movable, perm, name):
+    """movable: ascending list of (first_line, last_line) slots; slot k receives old chunk perm[k]."""
+    n = len(movable)
+    out, tokperm = [], []
+    pos = 1
+    for slot, (a, b) in enumerate(movable):
+        out.extend(p.lines[pos - 1:a - 1])
+        sa, sb = movable[perm[slot]]
+        out.extend(p.lines[sa - 1:sb])
+        pos = b + 1
+    out.extend(p.lines[pos - 1:])
+    # code-token permutation: new order of old code-token indices
+    where = {}
+    for k, (a, b) in enumerate(movable):
+        for l in range(a, b + 1):
+            where[l] = k
+    groups = {k: [] for k in range(n)}
+    seq = []        # items: ('t', idx) or ('slot', k)
+    seen_slot = set()
+    for idx, t in enumerate(p.code):
+        k = where.get(t.line)
+        if k is None:
+            seq.append(("t", idx))
+        else:
+            groups[k].append(idx)
+            if k not in seen_slot:
+                seen_slot.add(k)
+                seq.append(("slot", k))
+    for kind, v in seq:
+        if kind == "t":
+            tokperm.append(v)
+        else:
+            tokperm.extend(groups[perm[v]])
+    return Rewrite("O", name, p.join(out), perm=tokperm)
+
+
 def rewrites_O(p, limit=None):
-    """every legal permutation of the top-level definitions (separating blank/comment lines keep their place)."""
+    """every legal permutation of the top-level definitions and (generated files) of the block of forward
+    declarations; separating blank/comment lines keep their place."""
     if p.gen_chunks is not None:
-        movable = [(a, b) for a, b, perm in p.gen_chunks if perm]
-        before = list(p.gen_after)
-    else:
-        ch = p.lex_chunks()
-        if ch is None:
-            return
-        # whole lines, no shared lines
-        used = {}
-        for c in ch:
-            for l in range(c["first_line"], c["last_line"] + 1):
-                if l in used:
-                    return
-                used[l] = c
-        for t in p.toks:
-            if t.kind == "cmt" and t.line in used and False:
-                return
-        movable, before, defs = [], [], []
-        seg = 0
-        for c in ch:
-            if c["pp"]:
-                seg += 1
+        # groups: "D" = definitions, "P" = prototypes / forward declarations; each group is permuted on its own,
+        # plus one joint rewrite that applies the last legal permutation of both groups at once
+        last = {}
+        for g in ("D", "P"):
+            movable = [(a, b) for a, b, grp in p.gen_chunks if grp == g]
+            n = len(movable)
+            if n < 2:
                 continue
-            c["seg"] = seg
-            defs.append(c)
-        for c in defs:
-            movable.append((c["first_line"], c["last_line"]))
-        for i, a in enumerate(defs):
-            for j in range(i + 1, len(defs)):
-                b = defs[j]
-                if a["seg"] != b["seg"] or a.get("has_pp") or b.get("has_pp") or \
-                        (a["uses"] & b["declared"]) or (b["uses"] & a["declared"]):
-                    before.append((i, j))
+            cnt = 0
+            for perm in linear_extensions(n, p.gen_after.get(g, [])):
+                if perm == tuple(range(n)):
+                    continue
+                if limit is not None and cnt >= limit:
+                    break
+                cnt += 1
+                last[g] = perm
+                yield _apply_perm(p, movable, perm, "perm-%s-%s" % (g, "".join(str(x) for x in perm)))
+        if len(last) == 2:
+            slots = sorted([(a, b, grp) for a, b, grp in p.gen_chunks if grp in last])
+            idx = {g: [k for k, s in enumerate(slots) if s[2] == g] for g in last}
+            perm = list(range(len(slots)))
+            for g in last:
+                for k, src in zip(idx[g], last[g]):
+                    perm[k] = idx[g][src]
+            yield _apply_perm(p, [(a, b) for a, b, _ in slots], perm, "perm-DP-last-of-both")
+        return
+    ch = p.lex_chunks()
+    if ch is None:
+        return
+    # whole lines, no shared lines
+    used = {}
+    for c in ch:
+        for l in range(c["first_line"], c["last_line"] + 1):
+            if l in used:
+                return
+            used[l] = c
+    movable, before, defs = [], [], []
+    seg = 0
+    for c in ch:
+        if c["pp"]:
+            seg += 1
+            continue
+        c["seg"] = seg
+        defs.append(c)
+    for c in defs:
+        movable.append((c["first_line"], c["last_line"]))
+    for i, a in enumerate(defs):
+        for j in range(i + 1, len(defs)):
+            b = defs[j]
+            if a["seg"] != b["seg"] or a.get("has_pp") or b.get("has_pp") or \
+                    (a["uses"] & b["declared"]) or (b["uses"] & a["declared"]):
+                before.append((i, j))
     n = len(movable)
     if n < 2:
         return
@@ -449,37 +507,7 @@ def rewrites_O(p, limit=None):
         if limit is not None and cnt >= limit:
             return
         cnt += 1
-        out, tokperm = [], []
-        pos = 1
-        for slot, (a, b) in enumerate(movable):
-            out.extend(p.lines[pos - 1:a - 1])
-            sa, sb = movable[perm[slot]]
-            out.extend(p.lines[sa - 1:sb])
-            pos = b + 1
-        out.extend(p.lines[pos - 1:])
-        # code-token permutation: new order of old code-token indices
-        where = {}
-        for k, (a, b) in enumerate(movable):
-            for l in range(a, b + 1):
-                where[l] = k
-        groups = {k: [] for k in range(n)}
-        seq = []        # items: ('t', idx) or ('slot', k)
-        seen_slot = set()
-        for idx, t in enumerate(p.code):
-            k = where.get(t.line)
-            if k is None:
-                seq.append(("t", idx))
-            else:
-                groups[k].append(idx)
-                if k not in seen_slot:
-                    seen_slot.add(k)
-                    seq.append(("slot", k))
-        for kind, v in seq:
-            if kind == "t":
-                tokperm.append(v)
-            else:
-                tokperm.extend(groups[perm[v]])
-        yield Rewrite("O", "perm-" + "".join(str(x) for x in perm), p.join(out), perm=tokperm)
+        yield _apply_perm(p, movable, perm, "perm-" + "".join(str(x) for x in perm))
 
 
 # --------------------------------------------------------------------------------------------------------------
